@@ -206,11 +206,16 @@ static inline unsigned long pick_le(Ctx &ctx, const GroupSpec &g, BarnettSmartVT
 static inline ScenarioP sc_stack_groth(Ctx &ctx, bool interactive) {
   auto s = std::make_shared<Scenario>(); StackWorld W = make_stack(ctx, *s, interactive ? "stack_groth_interactive" : "stack_groth_noninteractive", false, 0, ctx.thorough ? 64 : 12, false); s->interactive = interactive;
   BarnettSmartVTMF_dlog *pv = W.w.pv(), *vv = W.w.vv(); unsigned long le = pick_le(ctx, W.w.g, pv); size_t cap = W.n + (size_t)ctx.c.range(0, 3);
-  GrothVSSHE *vp = s->own(new GrothVSSHE(cap, pv->p, pv->q, pv->k, pv->g, pv->h, le, W.w.g.fsize, W.w.g.gsize));
+  // the size arguments are lower bounds (CheckGroup accepts larger parameters): sometimes declare less than the real sizes
+  unsigned long decl_F = W.w.g.fsize, decl_G = W.w.g.gsize; bool lower = ctx.c.prob(1, 3); if (lower) { decl_F -= (unsigned long)ctx.c.range(0, 64); decl_G -= (unsigned long)ctx.c.range(1, 40); }
+  GrothVSSHE *vp = s->own(new GrothVSSHE(cap, pv->p, pv->q, pv->k, pv->g, pv->h, le, decl_F, decl_G));
+  // documented set-up step: the commitment generators are re-derived from a common public coin
+  bool setup = ctx.c.prob(1, 2); if (setup) { Z a = zrand_bits(ctx, 160) + 1; vp->SetupGenerators_publiccoin(a.get_mpz_t()); }
+  s->desc << (lower ? " declared-sizes-lower" : "") << (setup ? " publiccoin-generators" : "");
   std::stringstream pg; vp->PublishGroup(pg); s->ctor_text = pg.str();
-  auto holder = std::make_shared<GrothVSSHE *>(nullptr); { std::istringstream in(s->ctor_text); *holder = new GrothVSSHE(cap, in, le, W.w.g.fsize, W.w.g.gsize); }
+  auto holder = std::make_shared<GrothVSSHE *>(nullptr); { std::istringstream in(s->ctor_text); *holder = new GrothVSSHE(cap, in, le, decl_F, decl_G); }
   s->cleanup.push_back([holder] { delete *holder; });
-  { unsigned long F = W.w.g.fsize, G = W.w.g.gsize; s->rebuild_verifier = [holder, cap, le, F, G](const std::string &t) { delete *holder; *holder = nullptr; std::istringstream in(t); *holder = new GrothVSSHE(cap, in, le, F, G); }; }
+  { unsigned long F = decl_F, G = decl_G; s->rebuild_verifier = [holder, cap, le, F, G](const std::string &t) { delete *holder; *holder = nullptr; std::istringstream in(t); *holder = new GrothVSSHE(cap, in, le, F, G); }; }
   for (size_t i = 0; i < 4; i++) s->ctor_lines_in_use.push_back(i); s->ctor_lines_in_use.push_back(4); s->ctor_lines_in_use.push_back(5); s->ctor_lines_in_use.push_back(7); for (size_t i = 0; i < W.n; i++) s->ctor_lines_in_use.push_back(8 + i);
   GrothVSSHE *vvs = *holder; (void)vvs;
   s->desc << " l_e=" << le << " cap=" << cap;
@@ -256,16 +261,19 @@ static inline ScenarioP sc_skc(Ctx &ctx, int variant /*0 interactive,1 publiccoi
   s->name = variant == 0 ? "skc_interactive" : variant == 1 ? "skc_publiccoin" : "skc_noninteractive"; s->interactive = variant != 2; s->p = p; s->q = q;
   size_t n = (size_t)ctx.c.range(2, ctx.thorough ? 32 : 10); s->n = n; unsigned long qb = mpz_sizeinbase(q.get_mpz_t(), 2), le = std::min<unsigned long>((qb - 64) / 2, TMCG_GROTH_L_E);
   Z h = zpowm(gg, zrand_below(ctx, q - 2) + 1, p);
-  PedersenCommitmentScheme *com = s->own(new PedersenCommitmentScheme(n, p.get_mpz_t(), q.get_mpz_t(), k.get_mpz_t(), h.get_mpz_t(), g.fsize, g.gsize));
+  unsigned long decl_F = g.fsize, decl_G = g.gsize; bool lower = ctx.c.prob(1, 3); if (lower) { decl_F -= (unsigned long)ctx.c.range(0, 64); decl_G -= (unsigned long)ctx.c.range(1, 40); }
+  PedersenCommitmentScheme *com = s->own(new PedersenCommitmentScheme(n, p.get_mpz_t(), q.get_mpz_t(), k.get_mpz_t(), h.get_mpz_t(), decl_F, decl_G));
+  bool setup = ctx.c.prob(1, 2); Z coin_a = zrand_bits(ctx, 160) + 1; if (setup) com->SetupGenerators_publiccoin(coin_a.get_mpz_t());
   std::stringstream t1, t2; com->PublishGroup(t1); com->PublishGroup(t2);
-  GrothSKC *sp = s->own(new GrothSKC(n, t1, le, g.fsize, g.gsize)), *sv = s->own(new GrothSKC(n, t2, le, g.fsize, g.gsize));
+  GrothSKC *sp = s->own(new GrothSKC(n, t1, le, decl_F, decl_G)), *sv = s->own(new GrothSKC(n, t2, le, decl_F, decl_G));
+  if (setup && ctx.c.coin()) { sp->SetupGenerators_publiccoin(coin_a.get_mpz_t()); sv->SetupGenerators_publiccoin(coin_a.get_mpz_t()); com->SetupGenerators_publiccoin(coin_a.get_mpz_t()); } // every instance re-derives the same generators itself
   std::vector<size_t> pi(n); for (size_t i = 0; i < n; i++) pi[i] = i; for (size_t i = n - 1; i > 0; i--) std::swap(pi[i], pi[ctx.c.index(i + 1)]);
   auto m = std::make_shared<std::vector<mpz_ptr> >(), mpi = std::make_shared<std::vector<mpz_ptr> >();
   bool repeats = ctx.c.prob(1, 4);
   for (size_t i = 0; i < n; i++) m->push_back(newz(*s, repeats ? Z((unsigned long)ctx.c.index(2)) : zrand_below(ctx, q)));
   for (size_t i = 0; i < n; i++) mpi->push_back(newz(*s, Z((*m)[pi[i]])));
   mpz_ptr c = newz(*s), r = newz(*s); com->Commit(c, r, *mpi);
-  bool opt = ctx.c.coin(); s->desc << s->name << " " << group_desc(g) << " n=" << n << " l_e=" << le << " optimizations=" << opt;
+  bool opt = ctx.c.coin(); s->desc << s->name << " " << group_desc(g) << " n=" << n << " l_e=" << le << " optimizations=" << opt << (lower ? " declared-sizes-lower" : "") << (setup ? " publiccoin-generators" : "");
   JareckiLysyanskayaEDCF *e1 = nullptr, *e2 = nullptr;
   if (variant == 1) { e1 = s->own(new JareckiLysyanskayaEDCF(2, 0, p.get_mpz_t(), q.get_mpz_t(), com->g[0], com->h, g.fsize, g.gsize)); e2 = s->own(new JareckiLysyanskayaEDCF(2, 0, p.get_mpz_t(), q.get_mpz_t(), com->g[0], com->h, g.fsize, g.gsize)); }
   s->prove = [=](std::istream &in, std::ostream &out) { if (variant == 0) sp->Prove_interactive(pi, r, *m, in, out); else if (variant == 1) sp->Prove_interactive_publiccoin(pi, r, *m, e1, in, out); else sp->Prove_noninteractive(pi, r, *m, out); };
@@ -280,10 +288,12 @@ static inline ScenarioP sc_pedersen(Ctx &ctx) {
   auto s = std::make_shared<Scenario>(); GroupSpec g = pick_group(ctx, false);
   std::string gt = vtmf_group_text(g.kind, g.fsize, g.gsize, g.idx); auto lines = split_lines(gt); Z p = zparse62(lines[0]), q = zparse62(lines[1]), gg = zparse62(lines[2]), k = zparse62(lines[3]);
   s->name = "pedersen_commit_open"; s->p = p; s->q = q; size_t n = (size_t)ctx.c.range(1, 12); s->n = n; Z h = zpowm(gg, zrand_below(ctx, q - 2) + 1, p);
-  PedersenCommitmentScheme *com = s->own(new PedersenCommitmentScheme(n, p.get_mpz_t(), q.get_mpz_t(), k.get_mpz_t(), h.get_mpz_t(), g.fsize, g.gsize));
-  std::stringstream t; com->PublishGroup(t); PedersenCommitmentScheme *cv = s->own(new PedersenCommitmentScheme(n, t, g.fsize, g.gsize));
+  unsigned long decl_F = g.fsize, decl_G = g.gsize; bool lower = ctx.c.prob(1, 3); if (lower) { decl_F -= (unsigned long)ctx.c.range(0, 64); decl_G -= (unsigned long)ctx.c.range(1, 40); }
+  PedersenCommitmentScheme *com = s->own(new PedersenCommitmentScheme(n, p.get_mpz_t(), q.get_mpz_t(), k.get_mpz_t(), h.get_mpz_t(), decl_F, decl_G));
+  bool setup = ctx.c.prob(1, 2); if (setup) { Z a = zrand_bits(ctx, 160) + 1; com->SetupGenerators_publiccoin(a.get_mpz_t()); }
+  std::stringstream t; com->PublishGroup(t); PedersenCommitmentScheme *cv = s->own(new PedersenCommitmentScheme(n, t, decl_F, decl_G));
   auto m = std::make_shared<std::vector<mpz_ptr> >(); for (size_t i = 0; i < n; i++) m->push_back(newz(*s, zrand_below(ctx, q)));
-  mpz_ptr c = newz(*s), r = newz(*s); s->desc << "pedersen " << group_desc(g) << " n=" << n;
+  mpz_ptr c = newz(*s), r = newz(*s); s->desc << "pedersen " << group_desc(g) << " n=" << n << (lower ? " declared-sizes-lower" : "") << (setup ? " publiccoin-generators" : "");
   // "proof" = the opening (r); transcript carries r
   s->prove = [=](std::istream &, std::ostream &out) { com->Commit(c, r, *m); out << r << std::endl; };
   s->verify = [=](std::istream &in, std::ostream &) { mpz_t rr; mpz_init(rr); in >> rr; bool ok = in.good() && cv->Verify(c, rr, *m); mpz_clear(rr); return ok; };
